@@ -43,7 +43,9 @@ func mapDesc(k, v plenccodec.Descriptor) plenccodec.Descriptor {
 }
 
 func descEq(a, b *plenccodec.Descriptor) bool {
-	if a.Index != b.Index || a.Name != b.Name || a.Type != b.Type || a.TypeName != b.TypeName ||
+	// the type name of a synthesised map-entry struct is not part of the property
+	sameTypeName := a.TypeName == b.TypeName || a.LogicalType == plenccodec.LogicalTypeMapEntry
+	if a.Index != b.Index || a.Name != b.Name || a.Type != b.Type || !sameTypeName ||
 		a.ExplicitPresence != b.ExplicitPresence || a.LogicalType != b.LogicalType || len(a.Elements) != len(b.Elements) {
 		return false
 	}
